@@ -141,7 +141,9 @@ def build_field(case):
             if np.array_equal(arr2, arr * 2):
                 case["_scale2"] = True
                 return mesh, df.Field(mesh, nvdim=1, value=arr2, dtype=np.int64), arr2.astype(float), None
-        return mesh, df.Field(mesh, nvdim=1, value=arr), arr, None
+        # a scalar field may carry a name for its single component, with or without a mapping: it rotates all the same
+        skw = [{}, {"vdims": ["T"]}, {"vdims": ["rho"], "vdim_mapping": {"rho": "z"}}][case["seed"] % 3]
+        return mesh, df.Field(mesh, nvdim=1, value=arr, **skw), arr, None
     labels = case["vdims"] or ["x", "y", "z"]
     # component c is mapped to axis perm[c]
     mapping = {labels[i]: dims[case["perm"][i]] for i in range(3)}
